@@ -4,3 +4,4 @@ import BufrProps.C09
 import BufrProps.C19
 import BufrProps.C01
 import BufrProps.C12
+import BufrProps.C02
